@@ -119,7 +119,7 @@ func (p *BundlePropertyExperimenter) Len() uint16 {
 }
 
 func (p *BundlePropertyExperimenter) MarshalBinary() (data []byte, err error) {
-	data = make([]byte, 0)
+	data = make([]byte, 12)
 	n := 0
 	binary.BigEndian.PutUint16(data[n:], p.Type)
 	n += 2
@@ -148,8 +148,9 @@ func (p *BundlePropertyExperimenter) UnmarshalBinary(data []byte) error {
 	n += 4
 	p.ExperimenterType = binary.BigEndian.Uint32(data[n:])
 	n += 4
-	if len(data) < int(p.Length) {
-		p.data = data[n:]
+	if int(p.Length) > n && len(data) >= int(p.Length) {
+		// the property owns a copy of its payload, not a view of the input
+		p.data = append([]byte{}, data[n:p.Length]...)
 	}
 	return nil
 }
